@@ -84,7 +84,7 @@ def sortlen(repo, res, rule="SORTLEN"):
     desc = []
     for n in ops:
         d = n["method"]
-        if n["args"] and n["args"][0]["k"] == "Closure":
+        if n["args"] and n["args"][0]["k"] == "Closure" and not n["method"].endswith("by_key"):
             cd = comparator_direction(n["args"][0])
             d += f"({cd})"
         elif n["method"].endswith("by_key") and n["args"]:
